@@ -32,6 +32,8 @@ class Driver:
         self.io: Any = None
         self.events: list[str] = []
         self.sleeps = 0
+        self.pipelined = 0
+        self.last_end: dict[str, float] = {}
 
     # ---- called from the spec --------------------------------------------------
     def on_send(self, sender: str, message: Any, recipient: Optional[str]) -> None:
@@ -60,7 +62,7 @@ class Driver:
 
     # ---- external parties -----------------------------------------------------------
     def _deliver_due(self) -> bool:
-        due = [p for p in self.pending if p[0] <= self.now + 1e-9]
+        due = sorted([p for p in self.pending if p[0] <= self.now + 1e-9], key=lambda p: p[0])  # stable: ties keep planning order
         self.pending = [p for p in self.pending if p[0] > self.now + 1e-9]
         for t, sender, receiver, chunk in due:
             self.io.add_receive(sender, receiver, chunk)
@@ -75,8 +77,11 @@ class Driver:
                 return (s, r, t)
         return None
 
-    def _plan_next_remote(self) -> None:
-        """The fuzzer is waiting (it sleeps): let an external party speak if the protocol allows it."""
+    def _plan_next_remote(self, start_at: Optional[float] = None, depth: int = 0, after: Optional[tuple[str, float]] = None) -> None:
+        """The fuzzer is waiting (it sleeps): let an external party speak if the protocol allows it.
+        With step["pipeline"] the peers do not wait for the fuzzer to digest a message: if only external parties may
+        speak after it, the next remote message is put on the wire right away (same sender: behind the previous
+        message; another sender: from now on, so that the fragments of the two parties interleave)."""
         plan = self.plan
         nxt = sorted(plan["first"](self.state))
         ext = [s for s in nxt if s[0] in plan["external"]]
@@ -103,7 +108,13 @@ class Driver:
             self.faults.append((kind, text))
             self.silent = True
         # chunks and arrival times
-        t = self.now
+        t = self.now if start_at is None else start_at
+        t = max(t, self.last_end.get(sym[0], 0.0))  # one party's messages stay in order
+        if after is not None:
+            # Fandango reads the party whose first fragment arrived first: the first fragments keep the order of
+            # the interaction, everything after them may interleave
+            t = max(t, after[1] + 0.001)
+        first_at: Optional[float] = None
         pos = 0
         sizes = list(step["chunks"]) or [len(text)]
         gaps = list(step["gaps"]) or [0.0]
@@ -112,13 +123,21 @@ class Driver:
             n = max(1, sizes[i % len(sizes)])
             t += gaps[i % len(gaps)]
             self.pending.append((t, sym[0], sym[1], text[pos:pos + n]))
+            if first_at is None:
+                first_at = t
             pos += n
             i += 1
+        self.last_end[sym[0]] = t
         if kind == "valid":
             self.state = plan["deriv"](self.state, sym)
         else:
             self.silent = True  # after a fault the peer says nothing more
         self.events.append(f"plan {kind} {sym} {text!r}")
+        if kind == "valid" and step.get("pipeline") and depth < 2:
+            nxt2 = plan["first"](self.state)
+            if nxt2 and all(s_[0] in plan["external"] for s_ in nxt2):
+                self.pipelined += 1
+                self._plan_next_remote(start_at=self.now, depth=depth + 1, after=(sym[0], first_at if first_at is not None else t))
 
 
 class Clock:
